@@ -18,7 +18,7 @@ from ..core import Ctx, first_diff, fracs, run_standard, unres, s, boolean, opt
 from ..coqterms import coq_bilateral, coq_diagnosis, coq_midline, coq_pattern, coq_uni
 from ..numcases import IMPORTS_ML, shrink_uni_case
 
-IMPORTS = IMPORTS_ML
+IMPORTS = IMPORTS_ML + " HpvQueries"
 
 
 def gen_pattern(rng, lnls, base, p_present=0.7):
@@ -54,6 +54,8 @@ def gen_case(rng, tier):
         c["inv"] = gen_pattern(rng, lnls, base)
         if base == 2 and rng.random() < 0.25:
             c["mode"] = "BN"
+        if rng.random() < 0.2:      # the same queries through HPVUnilateral (delegation to the hpv / nohpv sub-model)
+            c["hpv"] = {"status": rng.random() < 0.5, "other_params": gen.gen_edge_params(rng, g)}
     else:
         c["diag"] = {"ipsi": gen_diag(rng, mods, lnls), "contra": gen_diag(rng, mods, lnls)}
         if rng.random() < 0.15:
@@ -77,6 +79,15 @@ def gen_case(rng, tier):
 
 def build(case):
     import random
+    if case["cls"] == "uni" and case.get("hpv"):
+        from lymph import models
+        ctor = models.HPVUnilateral.trinary if case["graph"]["base"] == 3 else models.HPVUnilateral.binary
+        m = ctor(gen.graph_dict(case["graph"]), uni_kwargs={"max_time": case["max_time"]})
+        sel, oth = (m.hpv, m.nohpv) if case["hpv"]["status"] else (m.nohpv, m.hpv)
+        oth.set_params(**case["hpv"]["other_params"])
+        sel.set_params(**case["params"])
+        impl._common(m, case)
+        return m
     if case["cls"] == "uni":
         return impl.build_uni(case)
     rng = random.Random(case["seed_params"])
@@ -96,6 +107,8 @@ def impl_fn(case):
     kw = {"t_stage": case["t"], "mode": case["mode"]}
     if case["cls"] == "ml":
         kw.update({"midext": case["midext"], "central": case["central"]})
+    hk = {"hpv_status": case["hpv"]["status"]} if case.get("hpv") else {}
+    kw.update(hk)
     impl.prime_with_flipped_kinds(m, case, lambda mm: mm.risk(involvement=case["inv"], given_diagnosis=case["diag"], **kw))
     out = {}
     def call(key, fn):
@@ -112,10 +125,11 @@ def impl_fn(case):
     skw = {"t_stage": case["t"], "mode": case["mode"]}
     if case["cls"] == "ml":
         skw["central"] = case["central"]
+    skw.update(hk)
     def risk_given_prior_twice():
         prior = np.array(m.state_dist(**skw), dtype=float)
         keep = prior.copy()
-        extra = {"midext": case["midext"]} if case["cls"] == "ml" else {}
+        extra = {"midext": case["midext"]} if case["cls"] == "ml" else dict(hk)
         r1 = float(m.risk(involvement=case["inv"], given_diagnosis=case["diag"], given_state_dist=prior, **extra))
         r2 = float(m.risk(involvement=case["inv"], given_diagnosis=case["diag"], given_state_dist=prior, **extra))
         same = bool(np.array_equal(prior, keep, equal_nan=True))
@@ -141,6 +155,17 @@ def coq_expr_of(case, m):
     hmm = boolean(case["mode"] == "HMM")
     def ro(e):   # res (option Qc)
         return f"match {e} with inr (Some v) => inr (Some (qout v)) | inr None => inr None | inl e => inl e end"
+    if case["cls"] == "uni" and case.get("hpv"):
+        sel, oth = coq_uni(case), coq_uni({**case, "params": case["hpv"]["other_params"]})
+        st = case["hpv"]["status"]
+        h = f"{{| h_hpv := {sel if st else oth}; h_nohpv := {oth if st else sel} |}}"
+        d = coq_diagnosis(case["diag"])
+        inv = coq_pattern(case["inv"])
+        b = f"(Some {boolean(st)})"
+        return (f"let h := {h} in ({ro(f'hpv_risk h {b} {inv} (Some {d}) {t} {hmm}')}, "
+                f"match hpv_posterior h {b} (Some {d}) {t} {hmm} with "
+                f"inr (Some v) => inr (Some [qouts v]) | inr None => inr None | inl e => inl e end, "
+                f"match hpv_marginalize h {b} {inv} {t} {hmm} with inr v => inr (qout v) | inl e => inl e end)")
     if case["cls"] == "uni":
         u = coq_uni(case)
         d = coq_diagnosis(case["diag"])
